@@ -107,3 +107,82 @@ def near_tie_cell(sc, out, qrow, genes, normalization, flatten=False, drop_level
         if len(vals) >= 2 and vals[0] - vals[1] <= 1e-9 and not (vals[0] == 0.0 and vals[1] == 0.0):
             return True
     return False
+
+
+# ---------------------------------------------------------------------------------------------
+# relations over SEQUENCES of runs in one process, and the assignment stage called directly
+def run_history_same_path(ctx, sc, tag, steps, **var):
+    """Map several queries one after another IN THIS PROCESS, every one written to the SAME path (the file is
+    replaced between the runs) and mapped without a scratch directory, so that the path string reaches every
+    stage unchanged: a result memoised by path would survive the replacement.  steps: list of dicts with the
+    keyword arguments of pipeline.write_query (query, cell_ids, genes, encoding, chunks) plus 'normalization'.
+    Returns one result dict per step."""
+    d = ctx.scratch / tag
+    d.mkdir()
+    pipeline.write_stats(d / 'stats.h5', sc)
+    pipeline.write_markers(d / 'markers.json', sc)
+    out = []
+    for st in steps:
+        st = dict(st)
+        norm = st.pop('normalization', 'log2CPM')
+        q = d / 'query.h5ad'
+        if q.exists():
+            q.unlink()
+        pipeline.write_query(q, sc, **st)
+        cfg = pipeline.config_for(d, q, d / 'stats.h5', d / 'markers.json', normalization=norm, tmp_dir=None, **var)
+        for p in (d / 'out').iterdir():
+            p.unlink()
+        out.append(pipeline.run_mapping(cfg, trace_dir=None))
+    shutil.rmtree(d, ignore_errors=True)
+    return out
+
+
+def assign_direct(ctx, sc, tag, *, n_processors, chunk_size, on_disk, query=None, cell_ids=None,
+                  normalization='log2CPM', factor=0.5, iters=5, seed=11, n_assignments=3, encoding='dense'):
+    """election_runner.run_type_assignment_on_h5ad called directly (as test_utils.hierarchical_mapping and library
+    users do), with the in-memory hand-back (on_disk=False: results_output_path=None) or the result buffer.
+    Returns dict(ok, error, results)."""
+    import contextlib
+    import io
+    import json
+    import h5py
+    from cell_type_mapper.taxonomy.taxonomy_tree import TaxonomyTree
+    from cell_type_mapper.type_assignment.marker_cache_v2 import create_marker_cache_from_specified_markers
+    from cell_type_mapper.type_assignment.election_runner import run_type_assignment_on_h5ad
+    from cell_type_mapper.utils.utils import clean_for_json
+    d = ctx.scratch / tag
+    d.mkdir()
+    res = {'ok': True, 'error': None, 'results': None}
+    buf = io.StringIO()
+    try:
+        with contextlib.redirect_stdout(buf), contextlib.redirect_stderr(buf):
+            pipeline.write_stats(d / 'stats.h5', sc)
+            pipeline.write_markers(d / 'markers.json', sc)
+            pipeline.write_query(d / 'query.h5ad', sc, encoding=encoding, query=query, cell_ids=cell_ids)
+            with h5py.File(d / 'stats.h5', 'r') as f:
+                tree = TaxonomyTree.from_str(serialized_dict=f['taxonomy_tree'][()].decode('utf-8'))
+                ref_genes = json.loads(f['col_names'][()].decode('utf-8'))
+            create_marker_cache_from_specified_markers(
+                marker_lookup=json.load(open(d / 'markers.json')), reference_gene_names=ref_genes,
+                query_gene_names=[pipeline.gname(g) for g in sc.query_genes],
+                output_cache_path=d / 'marker_cache.h5', taxonomy_tree=tree, min_markers=1)
+            lookup = {level: factor for level in tree.hierarchy[:-1]}
+            lookup['None'] = factor
+            rdir = None
+            if on_disk:
+                rdir = d / 'results'
+                rdir.mkdir()
+            (d / 'tmp').mkdir()
+            import numpy as np
+            r = run_type_assignment_on_h5ad(
+                query_h5ad_path=d / 'query.h5ad', precomputed_stats_path=d / 'stats.h5',
+                marker_gene_cache_path=d / 'marker_cache.h5', taxonomy_tree=tree, n_processors=n_processors,
+                chunk_size=chunk_size, bootstrap_factor_lookup=lookup, bootstrap_iteration=iters,
+                rng=np.random.default_rng(seed), n_assignments=n_assignments, normalization=normalization,
+                tmp_dir=str(d / 'tmp'), log=None, max_gb=1, results_output_path=rdir)
+            res['results'] = json.loads(json.dumps(clean_for_json(r)))
+    except Exception as e:      # noqa
+        res['ok'] = False
+        res['error'] = f'{type(e).__name__}: {e}'[:300]
+    shutil.rmtree(d, ignore_errors=True)
+    return res
